@@ -454,8 +454,11 @@ pub fn run_c05(ctx: &mut Ctx, _replay: Option<&[String]>) {
             for i in (1..dests.len()).rev() { dests.swap(i, rng.below(i + 1)); }
             dests.truncate(deg);
             let style = rng.below(2);
-            let msgs: Vec<(usize, f64)> = dests.iter().map(|&d| (d, 0.5 * rand_f(&mut rng, ty, style))).collect();
-            let vars: Vec<f64> = (0..nvars).map(|_| rand_f(&mut rng, ty, style)).collect();
+            // a quarter of the updates with exact magnitude TIES among the extrinsic values (hard-decision-like inputs: the
+            // least reliable neighbour of A-Min* is then the FIRST of the tied ones, in the layered rule as in the flooding rule)
+            let ties = rng.chance(1, 4);
+            let msgs: Vec<(usize, f64)> = dests.iter().map(|&d| (d, if ties { *rng.pick(&[0.0, 0.0, 0.5, -0.5]) } else { 0.5 * rand_f(&mut rng, ty, style) })).collect();
+            let vars: Vec<f64> = (0..nvars).map(|_| if ties { *rng.pick(&[1.0, -1.0, 1.5, -1.5, 3.0, -3.0]) } else { rand_f(&mut rng, ty, style) }).collect();
             calls.push((msgs, vars));
         }
         let input: Vec<String> = calls.iter().map(|(m, v)| format!("{} {}", pairs_f(m), fs(v))).collect();
